@@ -243,6 +243,11 @@ static int test_di(const uint8 *data, char *t, int s)
 	}
 #endif
 
+	/* test #7 (address of sample data > $FFFF ? ) */
+	/* (before asking for data up to the pattern address) */
+	if (smp_offs > 65535)
+		return -1;
+
 	PW_REQUEST_DATA(s, pat_offs);
 
 	/* test pattern table reliability */
@@ -253,11 +258,6 @@ static int test_di(const uint8 *data, char *t, int s)
 
 	/* test #6  ($FF at the end of pattern list ?) */
 	if (data[pat_offs - 1] != 0xff)
-		return -1;
-
-	/* test #7 (address of sample data > $FFFF ? ) */
-	/* l is still the address of the sample data */
-	if (smp_offs > 65535)
 		return -1;
 
 	pw_read_title(NULL, t, 0);
